@@ -20,7 +20,7 @@ RULE = ("plan = (dt) a datetime vector of unit D/s/ms/us, years 1..9999, NaT any
         "/ re applied element by element; missing in -> missing out; raising iff Python raises; Vector .dt/.re/.str proxies and "
         "scalar arguments agree with the module functions. Non-trivial: a vector with both a missing value and ≥ 2 values, or a "
         "calendar edge (ISO week 53/1, Feb 29, pre-1970, year boundary), or an empty-matching pattern. Distinct = plan hash.")
-CASES = {"quick": 2000, "thorough": 20000}
+CASES = {"quick": 3500, "thorough": 20000}
 FUZZ_RUNS = {"thorough": 20000}     # coverage-guided leg, 8 processes (vlib/fuzz.py)
 
 EXTRACTORS = ["year", "month", "day", "weekday", "isoweekday", "isoweek", "quarter"]
@@ -29,7 +29,7 @@ FORMATS = ["%Y-%m-%d", "%d.%m.%Y", "%Y-%m-%dT%H:%M:%S", "%Y-%m-%dT%H:%M:%S.%f", 
 EDGE_DATES = ["2020-12-31", "2021-01-03", "2021-01-04", "2024-02-29", "1969-12-31", "1970-01-01", "2015-12-28",
               "2016-01-03", "0001-01-01", "9999-12-31", "1999-12-31", "2000-01-01", "1900-02-28"]
 PATTERNS = ["[a-z]", r"\d+", "x*", "$", "^", "(a)(b)?", r"\s+", ".", "a|b", "(?P<n>é)", "a", "ab", "b", "é", "1", " "]
-STRINGS = ["", "a", "ab", "abc abc", "A1 b22", "é", "日本 x", "xxx", " ", "a\nb", "12"]
+STRINGS = ["", "a", "ab", "abc abc", "A1 b22", "é", "日本 x", "xxx", " ", "a\nb", "12", "AB", "aAbB", "É a"]
 UNITS = {"D": "d", "s": "ts", "ms": "tm", "us": "t"}
 
 
@@ -90,7 +90,7 @@ def _re_plan(draw, max_len):
             for _ in range(n)]
     fn = draw(st.sampled_from(["findall", "fullmatch", "match", "search", "split", "sub", "subn"]))
     plan = {"area": "re", "vals": vals, "fn": fn, "pattern": draw(st.sampled_from(PATTERNS)),
-            "flags": draw(st.sampled_from([0, 0, 2]))}
+            "flags": draw(st.sampled_from([0, 2]))}
     if fn == "split":
         plan["maxsplit"] = draw(st.sampled_from([0, 1, 2]))
     if fn in ("sub", "subn"):
@@ -101,7 +101,7 @@ def _re_plan(draw, max_len):
 
 def strategy(tier):
     m = 8 if tier == "quick" else 20
-    return st.one_of(_dt_plan(m), _dt_plan(m), _re_plan(m))
+    return st.one_of(_dt_plan(m), _dt_plan(m), _dt_plan(m), _re_plan(m), _re_plan(m))
 
 
 def nontrivial(plan):
